@@ -45,49 +45,6 @@ Proof.
     apply resolve_loop_nodup. constructor.
 Qed.
 
-(* ------------------------------------------------------------------ FORMAT and computed GO TO *)
-Lemma span_to_rpar x y : existsb (Ascii.eqb nl) x = false ->
-  exists z, snd (span (fun d => negb (Ascii.eqb d rpar || Ascii.eqb d nl)) (x ++ rpar :: y)) = rpar :: z.
-Proof.
-  induction x as [|c x IH]; intros H.
-  - exists y. reflexivity.
-  - cbn [existsb] in H. apply orb_false_iff in H as [Hc H]. cbn [app span].
-    destruct (Ascii.eqb c rpar) eqn:Er.
-    + apply Ascii.eqb_eq in Er. subst c. cbn [orb negb snd]. eauto.
-    + rewrite Ascii.eqb_sym in Hc. rewrite Hc. cbn [orb negb]. destruct (IH H) as (z & Hz).
-      destruct (span _ (x ++ rpar :: y)). cbn [snd] in *. eauto.
-Qed.
-
-Lemma digits_not_space l : forallb is_digit l = true -> forallb is_digit_b l = true.
-Proof. trivial. Qed.
-
-Lemma span_digits l rest : forallb is_digit l = true -> span is_digit_b (l ++ space :: rest) = (l, space :: rest).
-Proof. intros H. apply span_app; [exact H|reflexivity]. Qed.
-
-(* a FORMAT statement records nothing, whatever its body, with or without a blank before "(" *)
-Theorem format_inert lab sp body st : label_ok lab = true -> existsb (Ascii.eqb nl) (flat body) = false ->
-  line_step st (render_stmt (SFormat lab sp body)) = Some st.
-Proof.
-  intros Hl Hb. unfold label_ok in Hl. apply andb_true_iff in Hl as [Hn Hd].
-  assert (Hf : format_re (render_stmt (SFormat lab sp body)) = true).
-  { cbn [render_stmt]. unfold format_re.
-    change (lab ++ s " format" ++ (if sp then [space] else []) ++ lpar :: flat body ++ [rpar])
-      with (lab ++ space :: (s "format" ++ (if sp then [space] else []) ++ lpar :: flat body ++ [rpar])).
-    rewrite (span_digits lab _ Hd). destruct lab as [|c0 l0]; [discriminate|]. cbn [is_nil].
-    assert (E1 : span is_space (space :: s "format" ++ (if sp then [space] else []) ++ lpar :: flat body ++ [rpar])
-                 = ([space], s "format" ++ (if sp then [space] else []) ++ lpar :: flat body ++ [rpar])) by reflexivity.
-    rewrite E1. cbn [is_nil].
-    assert (E2 : starts_ci (s "format") (s "format" ++ (if sp then [space] else []) ++ lpar :: flat body ++ [rpar]) = true) by reflexivity.
-    rewrite E2.
-    assert (E3 : snd (span is_space (skipn 6 (s "format" ++ (if sp then [space] else []) ++ lpar :: flat body ++ [rpar])))
-                 = lpar :: flat body ++ [rpar]) by (destruct sp; reflexivity).
-    destruct (span is_space (skipn 6 (s "format" ++ (if sp then [space] else []) ++ lpar :: flat body ++ [rpar]))) as [w2 x3].
-    cbn [snd] in E3. subst x3. change (Ascii.eqb lpar lpar) with true. cbn iota.
-    destruct (span_to_rpar (flat body) [] Hb) as (z & Hz).
-    destruct (span _ (flat body ++ [rpar])) as [u v]. cbn [snd] in Hz. subst v. reflexivity. }
-  unfold line_step. destruct st as [a calls]. now rewrite Hf.
-Qed.
-
 (* ------------------------------------------------------------------ the full statement and its refutations *)
 Definition same_set (a b : list str) : bool :=
   forallb (fun x => str_in x b) a && forallb (fun x => str_in x a) b.
@@ -273,3 +230,38 @@ Example exact_repaired_example :
                         s "20 if (f(f(i)) > f(i)) call b%run"] /\
   recorded tb (map render_stmt ss) = Some [s "m.t"; s "m.f"; s "m.t1.run"; s "m.t2.run"].
 Proof. cbv zeta. repeat match goal with |- _ /\ _ => split end; vm_compute; reflexivity. Qed.
+
+(* nested ASSOCIATE constructs inside the hypothesis of C08_exact: a chain selector, a function
+   selector, an expression selector, a name bound again in an inner construct, references headed by
+   each of them, END ASSOCIATE restoring the outer meaning *)
+Definition assoc_tb : symtab :=
+  mk_symtab [(s "f", EFunc (s "m.f") (s "ty")); (s "g", EFunc (s "m.g") (s "integer")); (s "t", EProc (s "m.t"));
+             (s "arr", EVar (s "integer") true); (s "i", EVar (s "integer") true);
+             (s "obj", EVar (s "ty") true); (s "ty", EType (s "ty"))]
+            [(s "ty", [(s "items", EVar (s "integer") true); (s "inner", EVar (s "ty") true);
+                       (s "run", EProc (s "m.ty.run")); (s "get", EFunc (s "m.ty.get") (s "integer"))])] [].
+
+Definition assoc_unit : list stmt :=
+  [ SAssoc true [(s "aa", EDes (DPart0 (s "obj") (DLast0 (s "inner")))); (s "bb", ref1 "f" (name "i"));
+                 (s "cc", EBin (ref1 "arr" (EBin (num "1") (s ":") (num "3"))) (s " + ") (num "1"))];
+    SCall None (DPart0 (s "aa") (DLast0 (s "run")));
+    SForm None true (FAssign (name "i") (EBin (EDes (DPart0 (s "bb") (DLastA (s "get") (ref1 "g" (num "2")))))
+                                             (s " + ") (ref1 "cc" (num "2"))));
+    SAssoc false [(s "aa", EDes (DPart0 (s "aa") (DLast0 (s "items"))))];
+    SForm None true (FAssign (name "i") (ref1 "aa" (num "1")));
+    SEndAssoc;
+    SIfCall None true (EBin (EDes (DPart0 (s "aa") (DLastA (s "get") (name "i")))) (s " > ") (num "0")) (DLast0 (s "t"));
+    SEndAssoc;
+    SForm None true (FAssign (name "i") (ref1 "aa" (num "1"))) ].
+
+Example exact_assoc_example :
+  resolvable assoc_tb assoc_unit = true /\
+  map render_stmt assoc_unit =
+    [s "associate (aa => obj%inner, bb => f(i), cc => arr(1:3) + 1)"; s "call aa%run"; s "i = bb%get(g(2)) + cc(2)";
+     s "associate(aa => aa%items)"; s "i = aa(1)"; s "end associate"; s "if (aa%get(i) > 0) call t"; s "end associate";
+     s "i = aa(1)"] /\
+  unit_raw_calls (map render_stmt assoc_unit) =
+    Some [[s "f"]; [s "arr"]; [s "obj"; s "inner"; s "run"]; [s "f"; s "get"]; [s "g"]; [s "obj"; s "inner"; s "items"];
+          [s "t"]; [s "obj"; s "inner"; s "get"]; [s "aa"]] /\
+  recorded assoc_tb (map render_stmt assoc_unit) = Some [s "m.f"; s "m.ty.run"; s "m.ty.get"; s "m.g"; s "m.t"; s "aa"].
+Proof. repeat match goal with |- _ /\ _ => split end; vm_compute; reflexivity. Qed.
